@@ -49,7 +49,7 @@ class Work:
             if spec["kind"] == "sleep":
                 sim.sleep(spec["ms"] / 1000.0)
                 return
-            delay = 0 if spec["kind"] == "imm" else spec["ms"] * 1000
+            delay = 0 if spec["kind"] == "imm" else max(0, spec["ms"]) * 1000
             rec = acts[aid] = {"id": aid, "kind": spec["kind"], "inv": sim.tick(), "ret": None, "due": sim.now + delay, "due_hi": None,
                                "start": None, "end": None, "start_t": None, "thread": None, "runs": 0, "parent": parent,
                                "sched_thread": sim.current.name, "key": tramp_key(), "cancel_ret": None, "cancel_strict": False}
@@ -94,7 +94,7 @@ class Prop:
     id = "C30"
     level = "exploration"
     engine = "TH (controlled threads: baton passing, line-level pre-emption points, simulated locks/conditions/clock)"
-    quick_runs = 30000
+    quick_runs = 20000
     thorough_runs = 300000
     chunk = 100
     time_unit = "simulated seconds"
@@ -116,7 +116,7 @@ class Prop:
 
         def node(depth):
             k = rng.choice(["imm", "imm", "imm", "rel"])
-            spec = {"id": nid[0], "kind": k, "ms": rng.choice([0, 1, 5, 10, 30]), "children": []}
+            spec = {"id": nid[0], "kind": k, "ms": rng.choice([0, 1, 5, 10, 30, -5]), "children": []}  # (a negative relative time means "now")
             nid[0] += 1
             if depth < 3:
                 for _ in range(rng.choice([0, 0, 1, 1, 2])):
